@@ -458,6 +458,31 @@ func (fr *Frame) binop(op token.Token, a, b Term, ta, tb types.Type, pos token.P
 				return not(mk(SBool, "str_lt", a, b)), nil
 			}
 		}
+	case a.Sort == SFloat && c.sc.ieeeFloats && isFloat64(ta) && isFloat64(tb):
+		// IEEE 754 binary64, round to nearest even (what Go's float64 operators compute)
+		switch op {
+		case token.EQL:
+			return mk(SBool, "fp.eq", a, b), nil
+		case token.NEQ:
+			return not(mk(SBool, "fp.eq", a, b)), nil
+		case token.LSS:
+			return mk(SBool, "fp.lt", a, b), nil
+		case token.LEQ:
+			return mk(SBool, "fp.leq", a, b), nil
+		case token.GTR:
+			return mk(SBool, "fp.gt", a, b), nil
+		case token.GEQ:
+			return mk(SBool, "fp.geq", a, b), nil
+		case token.ADD:
+			return mk(SFloat, "fp.add RNE", a, b), nil
+		case token.SUB:
+			return mk(SFloat, "fp.sub RNE", a, b), nil
+		case token.MUL:
+			return mk(SFloat, "fp.mul RNE", a, b), nil
+		case token.QUO:
+			return mk(SFloat, "fp.div RNE", a, b), nil
+		}
+		return c.sc.fresh("fop", SFloat), nil
 	case a.Sort == SFloat:
 		switch op {
 		case token.EQL:
@@ -828,6 +853,12 @@ func (fr *Frame) execConvert(x *ssa.Convert, st *State) error {
 		fr.setVal(x, c.sc.define(x.Name(), c.convInt(v, from, to)))
 	case isString(from) && isString(to):
 		fr.setVal(x, v)
+	case c.sc.ieeeFloats && isInteger(from) && isFloat64(to):
+		fr.setVal(x, c.sc.define(x.Name(), c.intToFloat(v, from)))
+	case c.sc.ieeeFloats && isFloat64(from) && isInteger(to):
+		fr.setVal(x, c.sc.define(x.Name(), c.floatToInt(v, to)))
+	case c.sc.ieeeFloats && isFloat64(from) && isFloat64(to):
+		fr.setVal(x, v)
 	case isString(to) && isSliceOfBytes(from):
 		c.sc.declFun("bytes_to_str", []Sort{arraySort(c.sc.idxSort(), c.sortOf(types.Typ[types.Uint8])), c.sc.idxSort(), c.sc.idxSort()}, SStr)
 		bs := c.sortOf(types.Typ[types.Uint8])
@@ -854,6 +885,30 @@ func (fr *Frame) execConvert(x *ssa.Convert, st *State) error {
 		fr.setVal(x, c.freshOfType("conv", to))
 	}
 	return nil
+}
+
+// intToFloat: float64(i), rounding to nearest even.
+func (c *FuncCtx) intToFloat(v Term, from types.Type) Term {
+	if c.sc.mathInts {
+		return Term{fmt.Sprintf("((_ to_fp 11 53) RNE (to_real %s))", v.S), SFloat}
+	}
+	if isUnsigned(from) {
+		return Term{fmt.Sprintf("((_ to_fp_unsigned 11 53) RNE %s)", v.S), SFloat}
+	}
+	return Term{fmt.Sprintf("((_ to_fp 11 53) RNE %s)", v.S), SFloat}
+}
+
+// floatToInt: T(f) truncates towards zero; for a value that does not fit (or NaN) Go leaves the result
+// implementation-specific and SMT-LIB leaves fp.to_sbv/fp.to_ubv unspecified: any value, in both.
+func (c *FuncCtx) floatToInt(v Term, to types.Type) Term {
+	if c.sc.mathInts {
+		return Term{fmt.Sprintf("(to_int (fp.to_real (fp.roundToIntegral RTZ %s)))", v.S), SInt}
+	}
+	w := widthOf(to)
+	if isUnsigned(to) {
+		return Term{fmt.Sprintf("((_ fp.to_ubv %d) RTZ %s)", w, v.S), bvSort(w)}
+	}
+	return Term{fmt.Sprintf("((_ fp.to_sbv %d) RTZ %s)", w, v.S), bvSort(w)}
 }
 
 func isSliceOfBytes(t types.Type) bool {
